@@ -12,19 +12,19 @@ import (
 
 // inmemRoles are the roles of the in-memory kvs.Storage backend, resolved through types.
 type inmemRoles struct {
-	svc, waiterT, recordT    *types.Named
-	mutex, recs, waiters     *types.Var
-	wDone, wCount            *types.Var
-	recVersion, recExpires   *types.Var
-	recKey                   *types.Var
-	storage                  map[string]*ssa.Function // interface method name -> implementation
-	all                      []*ssa.Function          // every function of the package
-	svcFns                   []*ssa.Function          // methods of the service (and their closures)
-	notify                   *ssa.Function
-	locking                  map[*ssa.Function]bool // functions that acquire the service mutex
-	liveHelpers              map[*ssa.Function]bool // private helpers returning (Record, bool) that look the table up
-	newID                    *ssa.Function
-	storageIface             *types.Named
+	svc, waiterT, recordT  *types.Named
+	mutex, recs, waiters   *types.Var
+	wDone, wCount          *types.Var
+	recVersion, recExpires *types.Var
+	recKey                 *types.Var
+	storage                map[string]*ssa.Function // interface method name -> implementation
+	all                    []*ssa.Function          // every function of the package
+	svcFns                 []*ssa.Function          // methods of the service (and their closures)
+	notify                 *ssa.Function
+	locking                map[*ssa.Function]bool // functions that acquire the service mutex
+	liveHelpers            map[*ssa.Function]bool // private helpers returning (Record, bool) that look the table up
+	newID                  *ssa.Function
+	storageIface           *types.Named
 }
 
 func storageMethodNames() []string {
@@ -781,7 +781,9 @@ func (c *Ctx) inmemNotifyAfterMutate(r *inmemRoles, rule string) {
 				return same(call.Call.Args[1], key) || samePath(call.Call.Args[1], key) || sameFieldOfSameCell(call.Call.Args[1], key)
 			}
 			c.NoPath(rule, "notify after "+what, in, ir.Query{Fn: fn, From: in, Block: isNotify,
-				Target: func(x ssa.Instruction) bool { return ir.IsExit(x) || r.isUnlock(x) || (x != in && (r.recsUpdate(x) != nil || r.recsDelete(x) != nil)) }},
+				Target: func(x ssa.Instruction) bool {
+					return ir.IsExit(x) || r.isUnlock(x) || (x != in && (r.recsUpdate(x) != nil || r.recsDelete(x) != nil))
+				}},
 				"a record is changed or removed and the waiters of its key are not woken on this path (lost wake-up)")
 		})
 	}
